@@ -110,6 +110,10 @@ for gname, g in (("global", G), ("stack_global", SG)):
     for codec in ("cp273", "verif_sentinel_codec"):
         # the protocol 0-2 idiom for bytes, with a codec name of the input's choosing
         MAL.append((f"{gname}:_codecs.encode:{codec}", pre + g("_codecs", "encode") + [u("x"), u(codec), op("TUPLE2"), op("REDUCE"), op("STOP")]))
+# a global whose *name* is a str.format template: if any report text is produced by formatting input-derived text, the field is evaluated
+# (an attribute / index chain on live objects chosen by the input)
+MAL.append(("format-template-in-module-name", G("verif_fmt_{trigger.__class__.__name__}_end{0.__class__}", "x") + [op("STOP")]))
+MAL.append(("format-template-in-attr-name", [op("PROTO", 4)] + SG("verif_sentinel_missing", "verif_fmt_{severity.name}_end") + [op("STOP")]))
 MAL.append(("persid", [op("PERSID", "verif_sentinel_pkg"), op("STOP")]))
 MAL.append(("binpersid", [u("verif_sentinel_pkg"), op("BINPERSID"), op("STOP")]))
 inputs = [(n, assemble(p)) for n, p in MAL] + list(corpus())
@@ -149,7 +153,15 @@ def entry_points(data, path):
         return ft.Trace(fk.Interpreter(fk.Pickled.load(data))).run()
 
     def check():
-        return fa.check_safety(fk.Pickled.load(data), json_output_path=JSON_OUT)
+        res = fa.check_safety(fk.Pickled.load(data), json_output_path=JSON_OUT)
+        text = ""
+        try:
+            text = res.to_string() + " " + json.dumps(res.to_dict(), default=str) + " " + " ".join(str(r) for r in res.results)
+        except Exception:  # noqa
+            pass
+        if re.search(r"verif_fmt_(?!\{)", text):
+            EVENTS.append(("format-field-of-input-text-evaluated", re.search(r"verif_fmt_[^ `']{0,40}", text).group(0)))
+        return res
 
     def likely_safe():
         return fa.is_likely_safe(path)
